@@ -132,7 +132,7 @@ func (fr *Frame) callInner(in ssa.Instruction, cc *ssa.CallCommon, res ssa.Value
 		return
 	}
 	// call-site guards (guard dominance obligations)
-	if !fr.inlined && fr.contract != nil && len(fr.contract.Guards) > 0 {
+	if !fr.inlined && fr.contract != nil && (len(fr.contract.Guards) > 0 || len(fr.contract.Checks) > 0) {
 		name, qual := "", ""
 		if cc.IsInvoke() {
 			name = cc.Method.Name()
